@@ -326,6 +326,78 @@ let id_deepcap st env : item list * env =
   ([IFunc ofd; let_ res (call outer [lit st; lit st]); pr (ev res); pr (call outer [filler st env; lit st])],
    bindv (bind env ov) res TInt BLet)
 
+(* adjacent nested functions are mutually visible (Eval.v func_env): forward references, mutual
+   recursion over a measure, a captured variable shared by the whole run, the run inside an inner
+   block or a lambda, an escaping member of the run, and a later sibling that takes the place of an
+   outer function of the same name in the body of an EARLIER sibling *)
+let id_siblings st env : item list * env =
+  let outer = fresh st and k = fresh st and c = fresh st and res = fresh st in
+  let a = fresh st and b = fresh st and d = fresh st and n = fresh st and m = fresh st and x = fresh st in
+  flag st "siblings";
+  let l1 = lit st and l2 = lit st in
+  match Rng.int st.rng 5 with
+  | 0 ->
+    (* forward chain a -> b -> d in a random order of declaration; every member reads the captured c and k *)
+    let fa = IFunc (fdef a [] TInt [IExpr (bin Add (bin Mul (call b [ei 2]) (ei 10)) (ev c))]) in
+    let fb = IFunc (fdef b [(x, false, TInt)] TInt [IExpr (bin Sub (bin Mul (call d []) (ev x)) (ev k))]) in
+    let fdd = IFunc (fdef d [] TInt [IExpr (bin Add (ev k) l1)]) in
+    let run = Rng.shuffle st.rng [fa; fb; fdd] in
+    let escape = Rng.bool st.rng in
+    let t0 = TFun ([], TInt) in
+    let ofd = fdef outer [(k, false, TInt)] (if escape then t0 else TInt)
+        ([var_ c (bin Mul (ev k) (ei 2))] @ run @ [IExpr (asg (ev c) (bin Add (ev c) (ei 1))); IExpr (if escape then ev a else call a [])]) in
+    let ov = mkv ~fcost:40 ~fvars:[false] outer (TFun ([TInt], if escape then t0 else TInt)) BFunc env.lvl in
+    if escape then
+      ([IFunc ofd; let_ res (call outer [lit st]); pr (ECall (ev res, [])); pr (ECall (call outer [lit st], []))], bindv (bind env ov) res t0 BLet)
+    else ([IFunc ofd; let_ res (call outer [lit st]); pr (ev res)], bindv (bind env ov) res TInt BLet)
+  | 1 ->
+    (* mutual recursion over a measure; both members update a captured accumulator *)
+    let fa = IFunc (fdef a [(n, false, TInt)] TInt
+                      [IExpr (ECond (bin Le (ev n) (ei 0), ev c,
+                                     EBlock [IExpr (asg (ev c) (bin Add (ev c) (bin Mul (ev n) (ev k)))); IExpr (call b [bin Sub (ev n) (ei 1)])]))]) in
+    let fb = IFunc (fdef b [(m, false, TInt)] TInt
+                      [IExpr (ECond (bin Le (ev m) (ei 0), bin Sub (ei 0) (ev c),
+                                     bin Add (call a [bin Sub (ev m) (ei 1)]) (ei 1)))]) in
+    let run = if Rng.bool st.rng then [fa; fb] else [fb; fa] in
+    let ofd = fdef outer [(k, false, TInt)] TInt ([var_ c (ei 0)] @ run @ [IExpr (bin Add (call a [ei (Rng.range st.rng 0 7)]) (bin Mul (call b [ei (Rng.range st.rng 0 6)]) (ei 1000)))]) in
+    let ov = mkv ~fcost:120 ~firstclass:true ~fvars:[false] outer (TFun ([TInt], TInt)) BFunc env.lvl in
+    ([IFunc ofd; pr (call outer [lit st]); pr (call outer [filler st env])], bind env ov)
+  | 2 ->
+    (* the run stands in an inner block and in a lambda body *)
+    let f = fresh st in
+    let blk = EBlock [IFunc (fdef a [] TInt [IExpr (bin Add (call b []) (ev k))]); IFunc (fdef b [] TInt [IExpr (bin Mul (ev k) (ei 3))]); IExpr (call a [])] in
+    let l = lam st [(x, false, TInt)] TInt
+        [IFunc (fdef d [] TInt [IExpr (bin Sub (call n [ev x]) (ev k))]); IFunc (fdef n [(m, false, TInt)] TInt [IExpr (bin Mul (ev m) (bin Add (ev x) (ei 1)))]);
+         IExpr (call d [])] in
+    let ofd = fdef outer [(k, false, TInt)] TInt [let_ c blk; let_ f l; IExpr (bin Add (bin Mul (ev c) (ei 1000)) (ECall (ev f, [l1])))] in
+    let ov = mkv ~fcost:40 ~firstclass:true ~fvars:[false] outer (TFun ([TInt], TInt)) BFunc env.lvl in
+    ([IFunc ofd; let_ res (call outer [lit st]); pr (ev res)], bindv (bind env ov) res TInt BLet)
+  | 3 ->
+    (* an outer function h; further in, a run [f; h]: f sees the LATER sibling h, not the outer one;
+       with a separating item between f and h it is the outer one (both shapes compile) *)
+    let h = fresh st and f = fresh st and zz = fresh st in
+    st.shadowing <- st.shadowing + 1;
+    let sep = Rng.pct st.rng 40 in
+    let ffd = IFunc (fdef f [] TInt [IExpr (bin Add (bin Mul (call h []) (ei 7)) (ev k))]) in
+    let own = IFunc (fdef h [] TInt [IExpr (bin Add l2 (ei 200))]) in
+    let inner_items = [ffd] @ (if sep then [let_ zz (lit st)] else []) @ [own; IExpr (bin Add (bin Mul (call f []) (ei 1000)) (call h []))] in
+    let mid = fresh st in
+    let ofd = fdef outer [(k, false, TInt)] TInt
+        [IFunc (fdef h [] TInt [IExpr (bin Add (ev k) (ei 1))]);
+         IFunc (fdef mid [] TInt inner_items);
+         IExpr (bin Add (call mid []) (call h []))] in
+    let ov = mkv ~fcost:40 ~firstclass:true ~fvars:[false] outer (TFun ([TInt], TInt)) BFunc env.lvl in
+    ([IFunc ofd; let_ res (call outer [lit st]); pr (ev res)], bindv (bind env ov) res TInt BLet)
+  | _ ->
+    (* an earlier sibling hands a later one out as a value; called after the definer returned *)
+    let t1 = TFun ([TInt], TInt) in
+    let fa = IFunc (fdef a [] t1 [IExpr (ev b)]) in
+    let fb = IFunc (fdef b [(x, false, TInt)] TInt [IExpr (bin Add (bin Mul (ev x) (ev k)) (ev c))]) in
+    let ofd = fdef outer [(k, false, TInt)] t1 [let_ c (bin Add (ev k) l1); fa; fb; IExpr (call a [])] in
+    let ov = mkv ~fcost:20 ~fvars:[false] outer (TFun ([TInt], t1)) BFunc env.lvl in
+    ([IFunc ofd; let_ res (call outer [lit st]); pr (ECall (ev res, [lit st])); pr (ECall (call outer [lit st], [filler st env]))],
+     bindv (bind env ov) res t1 BLet)
+
 (* ---- catch ------------------------------------------------------------------------------------------ *)
 let print_wrap i = EPrint (ev i)
 
@@ -341,13 +413,25 @@ let id_catch st env : item list * env =
   let exn_of kind = match kind with 0 -> ExDivision | 1 -> ExIndexOob | _ -> ExNil in
   let others kind = List.filter (fun e -> e <> exn_of kind) [ExDivision; ExIndexOob; ExNil; ExArrSize] in
   let handler v = let m = marker st in [pr (ei m); IExpr v] in
+  (* what a handler returns when it looks at its function's frame: the parameters ps (distinct
+     multipliers, so that a wrong slot shows in the value) *)
+  let hval (ps : expr list) : expr =
+    match ps with
+    | [] -> ei 7
+    | _ ->
+      let p = Rng.pick st.rng ps in
+      (match Rng.int st.rng 5 with
+       | 0 -> bin Add p (ei 1000)
+       | 1 -> bin Sub (bin Mul p (ei 10)) (Rng.pick st.rng ps)
+       | 2 | 3 -> List.fold_left (fun acc x -> bin Add (bin Mul acc (ei 100)) x) (ei 1) ps
+       | _ -> p) in
   let kind = Rng.int st.rng 3 in
   flag st "catch_probe";
   let res = fresh st in
   let env0 = bindv env z TInt BVar in
   let zdef = var_ z (ei 0) in
   let zarg () = if Rng.pct st.rng 12 then lit st else ev z in
-  match Rng.int st.rng 8 with
+  match Rng.weighted st.rng [10, 0; 12, 1; 10, 2; 10, 3; 10, 4; 10, 5; 8, 6; 12, 7; 22, 8; 14, 9] with
   | 0 ->
     (* chain of calls, fault at the bottom, caught at level j; clauses in random order *)
     let depth = Rng.range st.rng 1 3 in
@@ -375,14 +459,16 @@ let id_catch st env : item list * env =
     (* fault in the k-th argument; arguments are evaluated right to left *)
     let tr, env0 = tracer st env0 in
     let t e = call tr.vn [ei (next_tag ()); e] in
-    let g = fresh st and p1 = fresh st and p2 = fresh st and p3 = fresh st and w = fresh st and q = fresh st in
+    let g = fresh st and p1 = fresh st and p2 = fresh st and p3 = fresh st and w = fresh st and q = fresh st and k2 = fresh st in
     let gfd = fdef g [(p1, false, TInt); (p2, false, TInt); (p3, false, TInt)] TInt [IExpr (bin Add (ev p1) (bin Add (ev p2) (ev p3)))] in
     let k = Rng.int st.rng 3 in
     let args = List.init 3 (fun i -> if i = k then fault kind (ev q) else t (lit st)) in
     let inner = call g args in
     let e = if Rng.bool st.rng then inner else call g [t (lit st); inner; t (lit st)] in
-    let wfd = fdefc w [(q, false, TInt)] TInt [IExpr e] [(exn_of kind, handler (ei 7))] None in
-    ([zdef; IFunc gfd; IFunc wfd; let_ res (call w [ev z]); pr (ev res)], bindv env0 res TInt BLet)
+    (* the clause reads the parameters: the frame must be the owner's again when it runs *)
+    let hv = if Rng.pct st.rng 20 then ei 7 else hval [ev k2; ev q] in
+    let wfd = fdefc w [(q, false, TInt); (k2, false, TInt)] TInt [IExpr e] [(exn_of kind, handler hv)] None in
+    ([zdef; IFunc gfd; IFunc wfd; let_ res (call w [ev z; lit st]); pr (ev res)], bindv env0 res TInt BLet)
   | 2 ->
     (* a clause that faults itself: only the later clauses of the same function are tried *)
     let w = fresh st and q = fresh st in
@@ -427,16 +513,292 @@ let id_catch st env : item list * env =
     let l = ELambda (fdefc (fresh st) [(q, false, TInt)] TInt [IExpr (fault kind (ev q))]
                        [(exn_of kind, handler (bin Add (ev q) (ei 70)))] None) in
     ([zdef; let_ f l; let_ res (ECall (ev f, [ev z])); pr (ev res)], bindv (bindv env0 f t1 BLet) res TInt BLet)
-  | _ ->
+  | 7 ->
     (* fault while frames are under construction at several depths *)
     let tr, env0 = tracer st env0 in
     let t e = call tr.vn [ei (next_tag ()); e] in
-    let g = fresh st and p1 = fresh st and p2 = fresh st and w = fresh st and q = fresh st in
+    let g = fresh st and p1 = fresh st and p2 = fresh st and w = fresh st and q = fresh st and k2 = fresh st in
     let gfd = fdef g [(p1, false, TInt); (p2, false, TInt)] TInt [IExpr (bin Sub (ev p1) (ev p2))] in
     let deep = call g [t (lit st); call g [call g [fault kind (ev q); t (lit st)]; t (lit st)]] in
-    let wfd = fdefc w [(q, false, TInt)] TInt [IExpr (bin Add (t (lit st)) deep)] [] (Some (handler (ei 77))) in
-    ([zdef; IFunc gfd; IFunc wfd; let_ res (call w [ev z]); pr (ev res)], bindv env0 res TInt BLet)
+    let hv = if Rng.pct st.rng 25 then ei 77 else hval [ev q; ev k2] in
+    let wfd = fdefc w [(q, false, TInt); (k2, false, TInt)] TInt [IExpr (bin Add (t (lit st)) deep)] [] (Some (handler hv)) in
+    ([zdef; IFunc gfd; IFunc wfd; let_ res (call w [ev z; lit st]); pr (ev res)], bindv env0 res TInt BLet)
+  | 8 ->
+    (* the fault hits while calls of the handler-owning function are pending (frames marked, some
+       arguments already pushed), at any argument position and nesting depth, with callees of every
+       kind (named function, function-typed parameter, captured closure, tracer); the fault comes
+       from an instruction of the owner itself or out of a callee that is itself an argument; the
+       clause then works on the owner's frame: it reads int / var / record / array parameters,
+       assigns a var parameter, and makes a call of its own with them *)
+    let tr, env0 = tracer st env0 in
+    let t e = call tr.vn [ei (next_tag ()); e] in
+    let g2 = fresh st and a1 = fresh st and a2 = fresh st in
+    let g3 = fresh st and b1 = fresh st and b2 = fresh st and b3 = fresh st in
+    let thr = fresh st and tq = fresh st in
+    let lamv = fresh st and lx = fresh st and ly = fresh st in
+    let w = fresh st and q = fresh st and k2 = fresh st and m = fresh st and fp = fresh st and rp = fresh st and ap = fresh st in
+    let mv = fresh st in
+    let r = need_record st [TInt; TInt] in
+    let t2 = TFun ([TInt; TInt], TInt) in
+    let g2fd = fdef g2 [(a1, false, TInt); (a2, false, TInt)] TInt [IExpr (bin Sub (bin Mul (ev a1) (ei 3)) (ev a2))] in
+    let g3fd = fdef g3 [(b1, false, TInt); (b2, false, TInt); (b3, false, TInt)] TInt
+        [IExpr (bin Add (ev b1) (bin Add (bin Mul (ev b2) (ei 10)) (bin Mul (ev b3) (ei 100))))] in
+    (* a callee that raises: the exception reaches the owner through the callee's own return path *)
+    let thrfd = fdef thr [(tq, false, TInt)] TInt [IExpr (fault kind (ev tq))] in
+    let lamdef = let_ lamv (lam st [(lx, false, TInt); (ly, false, TInt)] TInt [IExpr (bin Add (bin Mul (ev lx) (ei 7)) (bin Sub (ev ly) (ev z)))]) in
+    let with_m = Rng.pct st.rng 50 and with_f = Rng.pct st.rng 50 and with_r = Rng.pct st.rng 35 and with_a = Rng.pct st.rng 35 in
+    let plain () = match Rng.int st.rng 4 with 0 -> ev k2 | 1 -> lit st | _ -> t (lit st) in
+    let faulting () = if Rng.pct st.rng 30 then call thr [ev q] else fault kind (ev q) in
+    let rec pend d =
+      let inner () = if d <= 0 then faulting () else pend (d - 1) in
+      let callee = Rng.weighted st.rng [30, `G2; 30, `G3; (if with_f then 25 else 0), `P; 20, `L; 10, `T] in
+      let n = match callee with `G3 -> 3 | `T -> 2 | _ -> 2 in
+      let pos = Rng.int st.rng n in
+      let args = List.init n (fun i -> if i = pos then inner () else plain ()) in
+      match callee with
+      | `G2 -> call g2 args
+      | `G3 -> call g3 args
+      | `P -> ECall (ev fp, args)
+      | `L -> ECall (ev lamv, args)
+      | `T -> (match args with [x; y] -> call tr.vn [ei (next_tag ()); if pos = 0 then bin Add x y else bin Add y x] | _ -> call g2 args) in
+    let depth = Rng.weighted st.rng [45, 0; 35, 1; 20, 2] in
+    let core = pend depth in
+    let loc = fresh st and i = fresh st and s = fresh st in
+    let body =
+      match Rng.int st.rng 6 with
+      | 0 -> [IExpr core]
+      | 1 -> [IExpr (bin Add (plain ()) core)]
+      | 2 -> [let_ loc (lit st); IExpr (bin Sub core (ev loc))]
+      | 3 -> [let_ loc core; IExpr (bin Add (ev loc) (ei 1))]
+      | 4 ->
+        let n = Rng.range st.rng 1 3 in
+        [var_ s (ei 0); var_ i (ei 0);
+         IExpr (EWhile (bin Lt0 (ev i) (ei n),
+                        EBlock [IExpr (asg (ev s) (bin Add (ev s) (ECond (bin Eq0 (ev i) (ei (n - 1)), core, print_wrap i))));
+                                IExpr (asg (ev i) (bin Add (ev i) (ei 1)))]));
+         IExpr (ev s)]
+      | _ -> [IExpr (idx (EArrLit ([plain (); core; plain ()], TInt)) (ei 1))] in
+    let reads = [ev k2; ev q] @ (if with_m then [ev m] else []) @ (if with_r then [fld (ev rp) r 1] else [])
+                @ (if with_a then [idx (ev ap) (ei 1)] else []) in
+    let hbody =
+      let m0 = marker st in
+      [pr (ei m0)]
+      @ (if with_m && Rng.bool st.rng then [IExpr (asg (ev m) (bin Add (ev m) (bin Mul (ev k2) (ei 2))))] else [])
+      @ [IExpr (match Rng.int st.rng 4 with
+          | 0 -> call g2 [ev k2; hval reads]
+          | 1 when with_f -> ECall (ev fp, [hval reads; ev k2])
+          | _ -> hval reads)] in
+    let params = [(q, false, TInt); (k2, false, TInt)] @ (if with_m then [(m, true, TInt)] else [])
+                 @ (if with_f then [(fp, false, t2)] else []) @ (if with_r then [(rp, false, TRec (nn r))] else [])
+                 @ (if with_a then [(ap, false, TArr TInt)] else []) in
+    let catches, call_ = if Rng.pct st.rng 35 then ([], Some hbody)
+      else ((if Rng.bool st.rng then [(List.hd (others kind), handler (ei (-1)))] else []) @ [(exn_of kind, hbody)], None) in
+    let wfd = fdefc w params TInt body catches call_ in
+    let actual = [zarg (); lit st] @ (if with_m then [ev mv] else []) @ (if with_f then [ev (if Rng.bool st.rng then g2 else lamv)] else [])
+                 @ (if with_r then [ERecNew (nn r, [lit st; lit st])] else []) @ (if with_a then [EArrLit ([lit st; lit st], TInt)] else []) in
+    ([zdef; var_ mv (lit st); IFunc g2fd; IFunc g3fd; IFunc thrfd; lamdef; IFunc wfd; let_ res (call w actual); pr (ev res); pr (ev mv)],
+     bindv (bindv env0 mv TInt BVar) res TInt BLet)
+  | _ ->
+    (* the owner of the clause is a closure: the clause reads captured variables and parameters after a
+       fault in the argument list of a pending call to another closure *)
+    let mk = fresh st and base = fresh st and bonus = fresh st and cnt = fresh st and run = fresh st and q = fresh st and k2 = fresh st in
+    let add = fresh st and x1 = fresh st and x2 = fresh st and x3 = fresh st and h = fresh st in
+    let t2 = TFun ([TInt; TInt], TInt) in
+    let addl = lam st [(x1, false, TInt); (x2, false, TInt); (x3, false, TInt)] TInt
+        [IExpr (bin Add (ev x1) (bin Add (bin Mul (ev x2) (ei 10)) (bin Sub (ev x3) (ev bonus))))] in
+    let pos = Rng.int st.rng 3 in
+    let args = List.init 3 (fun i -> if i = pos then fault kind (ev q) else if Rng.bool st.rng then ev k2 else lit st) in
+    let hv = bin Add (bin Mul (bin Add (bin Mul (ev base) (ei 100)) (ev bonus)) (ei 100)) (if Rng.bool st.rng then ev cnt else ev k2) in
+    let runfd = fdefc run [(q, false, TInt); (k2, false, TInt)] TInt
+        [IExpr (bin Add (ECall (ev add, args)) (ev base))]
+        [(exn_of kind, (let m0 = marker st in [pr (ei m0); IExpr (asg (ev cnt) (bin Add (ev cnt) (ei 1))); IExpr hv]))] None in
+    let mkfd = fdef mk [(base, false, TInt); (bonus, false, TInt)] t2
+        [var_ cnt (bin Add (ev base) (ei 1)); let_ add addl; IFunc runfd; IExpr (ev run)] in
+    let mv = mkv ~fcost:8 mk (TFun ([TInt; TInt], t2)) BFunc env.lvl in
+    ([zdef; IFunc mkfd; let_ h (call mk [lit st; lit st]); pr (ECall (ev h, [ev z; lit st])); pr (ECall (ev h, [zarg (); lit st]));
+      let_ res (ECall (call mk [lit st; lit st], [ev z; lit st])); pr (ev res)],
+     bindv (bindv (bind env0 mv) h t2 BLet) res TInt BLet)
 
+
+(* a closure whose catch clause reads CAPTURED variables; the exception is raised one to four calls
+   further in, in a function or closure that runs with a different environment (another closure's,
+   main's, none at all for a top-level function), and passes through frames that have no clause
+   for it (none, or only clauses for other exceptions) before it reaches the clause.  Multipliers are
+   distinct, so an environment that is not the owner's shows in the value. *)
+let id_catchcap st env : item list * env =
+  let z = fresh st in
+  let kind = Rng.int st.rng 3 in
+  flag st "catch_captured";
+  let r = need_record st [TInt; TInt] in
+  (* faults iff b = 0 *)
+  let fault b =
+    match kind with
+    | 0 -> bin (if Rng.bool st.rng then Div else Mod) (bin Add (lit st) (ei 100)) b
+    | 1 -> idx (EArrLit ([lit st; lit st; lit st], TInt)) (bin Sub b (ei 1))
+    | _ ->
+      let p = fresh st in
+      EBlock [var_ p (ERecNew (nn r, [lit st; lit st]));
+              IExpr (EIf (bin Eq0 b (ei 0), EBlock [IExpr (asg (ev p) (ERecNil (nn r))); IExpr (ei 0)]));
+              IExpr (fld (ev p) r (Rng.int st.rng 2))] in
+  let exn = match kind with 0 -> ExDivision | 1 -> ExIndexOob | _ -> ExNil in
+  let other = List.hd (List.filter (fun e -> e <> exn) (Rng.shuffle st.rng [ExDivision; ExIndexOob; ExNil; ExArrSize])) in
+  let t1 = TFun ([TInt], TInt) in
+  (* the thrower: a closure with its own captured variables, or a top-level function (no environment),
+     or a lambda over main's variables that calls the top-level one *)
+  let thr = fresh st and ta = fresh st and tb = fresh st and tc = fresh st in
+  let thr0 = fresh st and t0b = fresh st in
+  let thr_fd = fdef thr [(ta, false, TInt); (tc, false, TInt)] t1
+      [IExpr (lam st [(tb, false, TInt)] TInt [IExpr (bin Add (fault (ev tb)) (bin Add (ev ta) (ev tc)))])] in
+  let thr0_fd = fdef thr0 [(t0b, false, TInt)] TInt [IExpr (fault (ev t0b))] in
+  let thr_v = mkv ~fcost:6 thr (TFun ([TInt; TInt], t1)) BFunc 0 in
+  let thr0_v = mkv ~fcost:6 ~firstclass:true ~fvars:[false] thr0 t1 BFunc 0 in
+  let env = add_top st (add_top st env thr_fd thr_v) thr0_fd thr0_v in
+  (* a top-level relay: an empty environment between the thrower and the clause *)
+  let app = fresh st and af = fresh st and ax = fresh st in
+  let app_fd = fdef app [(af, false, t1); (ax, false, TInt)] TInt [IExpr (bin Add (ECall (ev af, [ev ax])) (ei 1))] in
+  let app_v = mkv ~fcost:10 app (TFun ([t1; TInt], TInt)) BFunc 0 in
+  let env = add_top st env app_fd app_v in
+  (* guard(base, bonus, g) -> the closure `run` with the clause *)
+  let guard = fresh st and base = fresh st and bonus = fresh st and g = fresh st and cnt = fresh st and run = fresh st and q = fresh st in
+  let nrel = Rng.weighted st.rng [30, 0; 40, 1; 20, 2; 10, 3] in
+  let rel = Array.init (nrel + 1) (fun _ -> fresh st) in
+  (* rel.(nrel) stands for g; relay i calls relay i+1 *)
+  let call_next i arg = if i + 1 >= nrel then ECall (ev g, [arg]) else call rel.(i + 1) [arg] in
+  let relay_item i =
+    let x = fresh st in
+    let via_app = Rng.pct st.rng 25 in
+    let nxt = if via_app then call app [(if i + 1 >= nrel then ev g else ev rel.(i + 1)); ev x] else call_next i (ev x) in
+    let body = [IExpr (bin Add (bin Mul nxt (ei (i + 2))) (if Rng.bool st.rng then ev bonus else ei 0))] in
+    let catches = if Rng.pct st.rng 35 then [(other, [pr (ei (marker st)); IExpr (ei (-5))])] else [] in
+    IFunc (fdefc rel.(i) [(x, false, TInt)] TInt body catches None) in
+  let relays = List.init nrel relay_item in
+  let first_call arg = if nrel = 0 then ECall (ev g, [arg]) else call rel.(0) [arg] in
+  let inline_relay = Rng.pct st.rng 30 in
+  let run_body =
+    if inline_relay then
+      let rl = fresh st and kx = fresh st in
+      [let_ rl (lam st [(kx, false, TInt)] TInt [IExpr (bin Mul (first_call (ev kx)) (ei 2))]); IExpr (bin Add (ECall (ev rl, [ev q])) (ev base))]
+    else [IExpr (bin Add (first_call (ev q)) (ev base))] in
+  let upd = Rng.bool st.rng in
+  let hv = bin Add (bin Mul (ev base) (ei 10000)) (bin Add (bin Mul (ev bonus) (ei 100)) (if Rng.bool st.rng then ev cnt else bin Add (ev q) (ev cnt))) in
+  let hbody = [pr (ei (marker st))] @ (if upd then [IExpr (asg (ev cnt) (bin Add (ev cnt) (ei 1)))] else []) @ [IExpr hv] in
+  let catches, call_ = if Rng.pct st.rng 30 then ([], Some hbody)
+    else ((if Rng.bool st.rng then [(other, [pr (ei (marker st)); IExpr (ei (-6))])] else []) @ [(exn, hbody)], None) in
+  let run_is_lambda = Rng.pct st.rng 30 in
+  (* relays and run are adjacent nested functions: any order of declaration *)
+  let funcs = if run_is_lambda then Rng.shuffle st.rng relays
+    else Rng.shuffle st.rng (IFunc (fdefc run [(q, false, TInt)] TInt run_body catches call_) :: relays) in
+  let tail = if run_is_lambda then [IExpr (ELambda (fdefc (fresh st) [(q, false, TInt)] TInt run_body catches call_))] else [IExpr (ev run)] in
+  let guard_fd = fdef guard [(base, false, TInt); (bonus, false, TInt); (g, false, t1)] t1
+      ([var_ cnt (bin Add (ev bonus) (ei 1))] @ funcs @ tail) in
+  let guard_v = mkv ~fcost:10 guard (TFun ([TInt; TInt; t1], t1)) BFunc env.lvl in
+  (* thrower values *)
+  let thrower () =
+    match Rng.int st.rng 3 with
+    | 0 -> call thr [lit st; lit st]
+    | 1 -> ev thr0
+    | _ -> let y = fresh st in lam st [(y, false, TInt)] TInt [IExpr (bin Add (call thr0 [bin Add (ev y) (ev z)]) (ev z))] in
+  let h1 = fresh st and h2 = fresh st in
+  let items =
+    [var_ z (ei 0); IFunc guard_fd; let_ h1 (call guard [lit st; lit st; thrower ()]); let_ h2 (call guard [lit st; lit st; thrower ()]);
+     pr (ECall (ev h1, [ev z])); pr (ECall (ev h2, [ei (Rng.range st.rng 1 3)])); pr (ECall (ev h2, [ev z])); pr (ECall (ev h1, [ev z]));
+     pr (ECall (call guard [lit st; lit st; thrower ()], [ev z]))] in
+  (items, bindv (bindv (bind (bindv env z TInt BVar) guard_v) h1 t1 BLet) h2 t1 BLet)
+
+(* a closure that is called as a TEMPORARY (nothing but the call itself refers to it: the result of a
+   call, an element of an array literal, a field of a fresh record, a conditional, a block, a lambda
+   applied in place, a curried call), calls something that allocates a few hundred short-lived
+   objects, and only then reads its captured variables (ints, a var cell, an array, a record).  Run
+   with a small heap, collections happen while the closure waits for its callee: its environment must
+   stay alive through the saved environment pointer of the callee's frame. *)
+let id_tempcall st env : item list * env =
+  flag st "temp_callee"; flag st "closure_escape";
+  let t1 = TFun ([TInt], TInt) in
+  let r = need_record st [TInt; TInt] in
+  (* allocating helpers (top level) *)
+  let step = fresh st and s1 = fresh st and s2 = fresh st in
+  let step_fd = fdef step [(s1, false, TInt); (s2, false, TInt)] TInt [IExpr (bin Sub (bin Add (ev s1) (bin Mul (ev s2) (ei 2))) (ev s2))] in
+  let step_v = mkv ~fcost:5 step (TFun ([TInt; TInt], TInt)) BFunc 0 in
+  let env = add_top st env step_fd step_v in
+  let ch = fresh st and n = fresh st and i = fresh st and s = fresh st in
+  let ckind = Rng.int st.rng 4 in
+  let ch_body =
+    match ckind with
+    | 0 ->
+      [var_ i (ei 0); var_ s (ei 0);
+       IExpr (EWhile (bin Lt0 (ev i) (ev n), EBlock [IExpr (asg (ev s) (call step [ev s; ev i])); IExpr (asg (ev i) (bin Add (ev i) (ei 1)))]));
+       IExpr (ev s)]
+    | 1 -> [IExpr (ECond (bin Le (ev n) (ei 0), ei 0, bin Add (call ch [bin Sub (ev n) (ei 1)]) (bin Mod (ev n) (ei 7))))]
+    | 2 ->
+      let t = fresh st in
+      [var_ i (ei 0); var_ s (ei 0);
+       IExpr (EWhile (bin Lt0 (ev i) (ev n),
+                      EBlock [let_ t (EArrLit ([ev i; bin Add (ev i) (ei 1); ev s], TInt));
+                              IExpr (asg (ev s) (bin BAnd (bin Add (ev s) (idx (ev t) (ei 1))) (ei 65535)));
+                              IExpr (asg (ev i) (bin Add (ev i) (ei 1)))]));
+       IExpr (ev s)]
+    | _ ->
+      let t = fresh st in
+      [var_ i (ei 0); var_ s (ei 0);
+       IExpr (EWhile (bin Lt0 (ev i) (ev n),
+                      EBlock [let_ t (ERecNew (nn r, [ev i; call step [ev s; ev i]]));
+                              IExpr (asg (ev s) (bin BAnd (bin Add (fld (ev t) r 0) (fld (ev t) r 1)) (ei 65535)));
+                              IExpr (asg (ev i) (bin Add (ev i) (ei 1)))]));
+       IExpr (ev s)] in
+  let ch_fd = fdef ch [(n, false, TInt)] TInt ch_body in
+  (* the allocating function, the maker and the closures are not handed to the random code around the
+     idiom: a random argument would make the loop arbitrarily long *)
+  st.top <- ch_fd :: st.top;
+  let count () = ei (match ckind with 1 -> Rng.range st.rng 30 70 | _ -> Rng.range st.rng 40 110) in
+  (* make(a, b, c) -> the closure *)
+  let make = fresh st and a = fresh st and b = fresh st and c = fresh st and d = fresh st and arr = fresh st and rc = fresh st and x = fresh st in
+  let extra = Rng.int st.rng 4 in
+  let pre, tail_read =
+    match extra with
+    | 0 -> ([], ei 0)
+    | 1 -> ([var_ d (bin Add (ev a) (ev b))], bin Mul (ev d) (ei 1000))
+    | 2 -> ([let_ arr (EArrLit ([ev c; ev b; ev a], TInt))], bin Mul (idx (ev arr) (ei 2)) (ei 1000))
+    | _ -> ([let_ rc (ERecNew (nn r, [ev b; ev c]))], bin Mul (fld (ev rc) r 1) (ei 1000)) in
+  let calls_closure = Rng.pct st.rng 30 in
+  let inner_call arg =
+    if calls_closure then
+      (* the callee is itself a closure with another environment *)
+      let y = fresh st in ECall (lam st [(y, false, TInt)] TInt [IExpr (bin Add (call ch [ev y]) (ev c))], [arg])
+    else call ch [arg] in
+  let reads = bin Add (bin Add (bin Mul (ev a) (ei 100)) (bin Mul (ev b) (ei 10))) (bin Add (ev c) tail_read) in
+  let body = [IExpr (bin Add (bin Mul (bin BAnd (inner_call (ev x)) (ei 1)) (ei 1000000)) reads)] in
+  let make_fd = fdef make [(a, false, TInt); (b, false, TInt); (c, false, TInt)] t1 (pre @ [IExpr (lam st [(x, false, TInt)] TInt body)]) in
+  let mk () = call make [lit st; lit st; lit st] in
+  let temp_call () =
+    match Rng.int st.rng 7 with
+    | 0 -> ECall (mk (), [count ()])
+    | 1 -> ECall (idx (EArrLit ([mk (); mk ()], t1)) (ei (Rng.int st.rng 2)), [count ()])
+    | 2 -> ECall (ECond (fillerb st env, mk (), mk ()), [count ()])
+    | 3 -> let f = fresh st in ECall (EBlock [let_ f (mk ()); IExpr (ev f)], [count ()])
+    | 4 ->
+      (* a lambda applied in place; its environment is built for this call only *)
+      let u = fresh st and v = fresh st and y = fresh st in
+      EBlock [let_ u (lit st); var_ v (lit st);
+              IExpr (ECall (lam st [(y, false, TInt)] TInt
+                              [IExpr (bin Add (bin Mul (bin BAnd (call ch [ev y]) (ei 1)) (ei 1000000)) (bin Add (bin Mul (ev u) (ei 100)) (ev v)))], [count ()]))]
+    | 5 ->
+      let rf = need_record st [t1; t1] in
+      ECall (fld (ERecNew (nn rf, [mk (); mk ()])) rf (Rng.int st.rng 2), [count ()])
+    | _ ->
+      (* curried: the intermediate closure is a temporary too *)
+      let cur = fresh st and p1 = fresh st and p2 = fresh st and p3 = fresh st in
+      let l = lam st [(p1, false, TInt)] (TFun ([TInt], t1))
+          [IExpr (lam st [(p2, false, TInt)] t1
+                    [IExpr (lam st [(p3, false, TInt)] TInt
+                              [IExpr (bin Add (bin Mul (bin BAnd (call ch [ev p3]) (ei 1)) (ei 1000000))
+                                        (bin Add (bin Mul (ev p1) (ei 100)) (ev p2)))])])] in
+      EBlock [let_ cur l; IExpr (ECall (ECall (ECall (ev cur, [lit st]), [lit st]), [count ()]))] in
+  let held = fresh st in
+  let ncalls = Rng.range st.rng 1 3 in
+  let items = [IFunc make_fd; let_ held (mk ()); pr (ECall (ev held, [count ()]))]
+              @ List.init ncalls (fun _ -> pr (temp_call ()))
+              @ [pr (ECall (ev held, [ei 2]))] in
+  (items, env)
 
 (* ---- shadowing -------------------------------------------------------------------------------------- *)
 let id_shadow st env : item list * env =
@@ -673,4 +1035,5 @@ let id_pipe st env : item list * env =
 
 let all = [ "id_pipe", id_pipe; "id_order", id_order; "id_alias", id_alias; "id_counter", id_counter; "id_adder", id_adder;
             "id_loopcap", id_loopcap; "id_reccap", id_reccap; "id_compose", id_compose; "id_deepcap", id_deepcap; "id_catch", id_catch;
+            "id_siblings", id_siblings; "id_catchcap", id_catchcap; "id_tempcall", id_tempcall;
             "id_shadow", id_shadow; "id_shadow2", id_shadow2; "id_shadow3", id_shadow3; "id_agg", id_agg; "id_tail", id_tail; "id_mutual", id_mutual ]
